@@ -236,6 +236,10 @@ def embedIfaces (on : Bool) (files : Disk) (suffix : String) (embeds : List Stri
 def embedsOf (t : NType) : List String :=
   ((onceAux ((Ctor.flatten t.tree).filter (fun f => !f.isShadowed)) []).filter (·.isEmbeded)).map (·.name)
 
+/-- the generated `type <T>Getter interface { <E>Getter…; M()… }` (none: neither embedded interfaces nor own methods) -/
+def mkIface (has : Bool) (E : List (String × List String)) (sfx : String) (ms : List String) : Option IfaceDef :=
+  if has then some { embeds := E.map (·.1 ++ sfx), methods := ms } else none
+
 /-- MakeData given what the package scope says about the embedded types' accessor interfaces
     (`getE` / `setE`: embedded type ↦ methods of its Getter / Setter interface; `eaccs`: the same as `shoot.Func`s) -/
 def newCore (lk : Leaks) (fl : NFlags) (st : NSt) (t : NType)
@@ -273,8 +277,8 @@ def newCore (lk : Leaks) (fl : NFlags) (st : NSt) (t : NType)
       jget := if needJSON then jget else [],
       jset := if needJSON then jset else [],
       jexp := if needJSON then jexp else [],
-      ifaceGet := if hasG then some { embeds := getE.map (·.1 ++ "Getter"), methods := getList.map Transfer.pascalS } else none,
-      ifaceSet := if hasS then some { embeds := setE.map (·.1 ++ "Setter"), methods := setList.map (fun n => "Set" ++ Transfer.pascalS n) } else none }
+      ifaceGet := mkIface hasG getE "Getter" (getList.map Transfer.pascalS),
+      ifaceSet := mkIface hasS setE "Setter" (setList.map (fun n => "Set" ++ Transfer.pascalS n)) }
   ({ hasNew := hasNew, accs := accs, getter := sw.1, setter := sw.2, fields := fields }, some out)
 
 /-- MakeData: the ONLY reads of generated files are the three look-ups below -/
